@@ -25,8 +25,21 @@ def _child(req, wfd):
 
     try:
         cpu = int(req.get("cpu", 120))
-        resource.setrlimit(resource.RLIMIT_CPU, (cpu, cpu + 5))
+        resource.setrlimit(resource.RLIMIT_CPU, (cpu, cpu + 15))
         faulthandler.enable()
+
+        def on_xcpu(signum, frame):
+            # CPU budget exhausted: say where the time went, then stop
+            from .common import LIBCLOCK
+
+            res = dict(LIBCLOCK.snapshot(), status="budget", kind="cpu", error=f"cpu limit {cpu}s")
+            data = json.dumps(res).encode()
+            try:
+                os.write(wfd, len(data).to_bytes(8, "big") + data)
+            finally:
+                os._exit(0)
+
+        signal.signal(signal.SIGXCPU, on_xcpu)
         prop = get_prop(req["prop"])
         if req["cmd"] == "run":
             run_seed = mix(req["seed"], req["prop"], req["run"])
@@ -94,13 +107,13 @@ def run_one(req):
             pass
     _, st = os.waitpid(pid, 0)
     if status == "budget":
-        return {"status": "budget", "error": f"wall limit {wall}s"}
+        return {"status": "budget", "kind": "wall", "error": f"wall limit {wall}s"}
     if len(buf) >= 8:
         n = int.from_bytes(buf[:8], "big")
         if len(buf) - 8 == n:
             return json.loads(buf[8:].decode())
     if os.WIFSIGNALED(st) and os.WTERMSIG(st) in (signal.SIGXCPU, signal.SIGKILL):
-        return {"status": "budget", "error": f"cpu limit (signal {os.WTERMSIG(st)})"}
+        return {"status": "budget", "kind": "cpu-hard", "error": f"cpu limit (signal {os.WTERMSIG(st)})"}
     return {"status": "harness-error", "error": f"child died: wait status {st}, {len(buf)} bytes"}
 
 
